@@ -106,6 +106,23 @@ def KeyState.revokeRequest : KeyState → Option KeyId
   | .rollOld _ o => some o.id
   | _ => none
 
+/-- The keys that hold a certificate of the parent: every key but a pending one (`CertifiedKey` vs `PendingKey`). -/
+def KeyState.certifiedIds : KeyState → List KeyId
+  | .pending _ => []
+  | .active c => [c.id]
+  | .rollPending _ c => [c.id]
+  | .rollNew n c => [n.id, c.id]
+  | .rollOld c o => [c.id, o.id]
+
+/-- `KeyState::revoke` (keys.rs): the keys a revocation request is made for when the class goes away (the class is
+removed at the parent, the parent is removed, the CA is deleted, the class is dropped), in the order of the requests. -/
+def KeyState.revokeKeys : KeyState → List KeyId
+  | .pending _ => []
+  | .active c => [c.id]
+  | .rollPending _ c => [c.id]
+  | .rollNew n c => [n.id, c.id]
+  | .rollOld c o => [c.id, o.id]
+
 /-- `ResourceClass::has_pending_requests` -/
 def KeyState.hasPending (ks : KeyState) : Bool :=
   !ks.certRequests.isEmpty || ks.revokeRequest.isSome
